@@ -35,6 +35,14 @@ CHECKS = {
  "C05": ("other", "contract-based deductive verification of the field predicates against truth tables written from the documentation; consistency lemma",
          "ParserField.is_required / is_no_input / always_no_input / is_no_output / always_no_output / get_on_error / get_default, BaseParser.parse_addition proved against the documented tables for bool / mode-string / callable settings; "
          "always_* and is_* agree (lemma). The two field loops (data_first_parse, field_first_parse) are not under contract - hence 'other'.", "DESIGN 3 C05"),
+ "C07": ("other", "contract-based deductive verification of the Schema mutators against a two-view state model (mapping / attribute dictionary) + AST audits of the inherited dict mutators",
+         "Schema.__field_setter__, __setitem__ (additional keys), __field_deleter__, pop, popitem, copy, clear (bounded: two declared fields), __post_init__: each single-key operation either raises with both views unchanged or stores only parsed values "
+         "under the touched key/attribute, never the unprovided sentinel, leaves every other entry untouched, refuses required/immutable deletions; every mutating dict method is overridden; update/setdefault/|= go through __setitem__ (audits). "
+         "Property fields (__coerce_property__) and DataClass closures are interface-level only - hence 'other'.", "DESIGN 3 C07"),
+ "C04": ("other", "contract-based deductive verification: exceptional frames (`only ParseError escapes`) on the real parse-path functions",
+         "Rule.parse, _parse_seq_args, _parse_tuple_args, _parse_map_args, _parse_contains, _parse_type_arg, LogicalType.logical_parse, ParserField.parse_value / parse_output_value, BaseParser.parse_addition, "
+         "FunctionParser.parse_pos_type: every operation outside a handler is an obligation under the type knowledge at that point; leaves may raise any Exception. Two known findings (unhashable converted key / item). "
+         "Termination of the converter loops and the function-call wrappers are not decided - hence 'other'.", "DESIGN 3 C04"),
  "C16": ("proof", "contract-based deductive verification: representation invariant of TypeRegistry preserved by every operation",
          "The registry's list/cache are related to an abstract view (entries with priority and ghost registration stamp); "
          "I1 priority order, I2 most-recent-first, I3 cache coherence, I4 stamps are established by __init__ and preserved by the register "
